@@ -550,7 +550,7 @@ def gen_flagfuns(trees, menv):
         def k(env):
             raise TranslationError('%s.%s: control reaches the end without return' % (mod, fname))
         body = tr.block(list(fn.body), env, k)
-        out.append('(* %s.%s%s, line %d *)' % (mod, (cls + '.') if cls else '', fname, fn.lineno))
+        out.append('(* %s.%s%s *)' % (mod, (cls + '.') if cls else '', fname))
         out.append('Definition %s (P : platform) %s(flags : Z) : %s :=\n %s.' % (coqname, extra_params, ret_ty, body))
         out.append('')
 
@@ -580,7 +580,7 @@ def gen_flagfuns(trees, menv):
     def kf(env):
         return '(%s)' % ', '.join(env[f][0] for f in want)
     body = tr.block(list(fn.body), {'flags': ('flags', 'Z')}, kf)
-    out.append('(* wcmatch.WcMatch._parse_flags, line %d: (flags, follow_links, show_hidden, recursive, dir_pathname, file_pathname, matchbase) *)' % fn.lineno)
+    out.append('(* wcmatch.WcMatch._parse_flags: (flags, follow_links, show_hidden, recursive, dir_pathname, file_pathname, matchbase) *)')
     out.append('Definition wcmatch_parse_flags (P : platform) (flags : Z) : Z * bool * bool * bool * bool * bool * bool :=\n %s.' % body)
     out.append('')
 
@@ -594,7 +594,7 @@ def gen_flagfuns(trees, menv):
     tr = FunTr('wcmatch', menv, [])
     env = {'self.flags': ('sflags', 'Z'), 'pathname': ('pathname', 'bool'), 'self.matchbase': ('matchbase', 'bool')}
     body = tr.block(stmts[:2], env, lambda e: e['flags'][0])
-    out.append('(* wcmatch.WcMatch._compile_wildcard, line %d: the flags handed to _wcparse.compile *)' % fn.lineno)
+    out.append('(* wcmatch.WcMatch._compile_wildcard: the flags handed to _wcparse.compile *)')
     out.append('Definition wcmatch_wildcard_flags (sflags : Z) (matchbase pathname : bool) : Z :=\n %s.' % body)
     out.append('')
     return '\n'.join(out) + '\n'
